@@ -156,25 +156,13 @@ def dump_value(v):
 
 
 # ------------------------------------------------------------------ families
-SPECIALS = re.compile(r'[,:;()"\[\]\\@<>]')
-
-
-def classify_committer(c):
-    """how the exporter's parseaddr split treats a committer string"""
-    if "<" not in c:
-        return None                       # exported as a bare name
-    m = re.match(r"^([^<]*)<([^<>\s]*)>$", c)
-    if not m or SPECIALS.search(m.group(1)):
-        return "committer-name-with-rfc822-specials"
-    return None
-
-
-def classify_tree_diff(old_ents, new_ents):
-    """families of exporter defects a (first-parent tree, tree) pair falls into, from the entries alone"""
+def classify_tree_diff(old_ents, new_ents, plain=True):
+    """families of exporter defects a (first-parent tree, tree) pair falls into, from the entries alone
+    (the directory-rename family is a defect of the plain format only)"""
     fams = set()
     moved_dirs = [f for f, e in new_ents.items() if e[2] and f in old_ents and old_ents[f][0] != e[0]]
     for f, e in new_ents.items():
-        if f in old_ents and not e[2] and old_ents[f][0] != e[0] and old_ents[f][1] == e[1]:
+        if plain and f in old_ents and not e[2] and old_ents[f][0] != e[0] and old_ents[f][1] == e[1]:
             fams.add("plain-export-directory-rename-leaves-children-behind")
     # entries (files, symlinks and directories) renamed by their own name / parent
     own = [(old_ents[f][0], e[0]) for f, e in new_ents.items()
@@ -182,16 +170,38 @@ def classify_tree_diff(old_ents, new_ents):
     olds = {o for o, _n in own}
     if any(n in olds for _o, n in own):
         fams.add("export-rename-chain-or-swap")
+    # importer: `R a b` followed by `M a` for a NEW entry at the vacated path: the importer takes the path's
+    # file id from the basis inventory, so the modification replaces the renamed entry (both formats)
+    renamed_from = {old_ents[f][0] for f, e in new_ents.items()
+                    if f in old_ents and old_ents[f][1] != e[1] and not e[2]}
+    if any(f not in old_ents and not e[2] and e[0] in renamed_from for f, e in new_ents.items()):
+        fams.add("import-new-entry-at-path-vacated-by-rename")
+    # plain format: a directory renamed onto the path of a deleted entry consumes that delete without
+    # emitting it (the directory itself is not exported), so the deleted entry survives
+    if plain:
+        gone = {e[0] for f, e in old_ents.items() if f not in new_ents and not e[2]}
+        if any(e[2] and f in old_ents and old_ents[f][1] != e[1] and e[0] in gone for f, e in new_ents.items()):
+            fams.add("plain-export-directory-renamed-onto-deleted-path-drops-the-delete")
     # a path that is deleted (or vacated by a directory that moved) and re-used by a different entry
     old_paths = {e[0]: f for f, e in old_ents.items()}
     for f, e in new_ents.items():
         if e[0] in old_paths and old_paths[e[0]] != f and not e[2]:
             of = old_paths[e[0]]
-            if of in new_ents and old_ents[of][1] == new_ents[of][1] and old_ents[of][0] != new_ents[of][0]:
+            if plain and of in new_ents and old_ents[of][1] == new_ents[of][1] and old_ents[of][0] != new_ents[of][0]:
                 fams.add("plain-export-directory-rename-leaves-children-behind")
-    if any(f in old_ents and old_ents[f][2] != e[2] for f, e in new_ents.items()):
-        fams.add("export-kind-change-directory")
     return fams
+
+
+def classify_rich_import(old_ents, new_ents):
+    """rich format: the importer cannot take a change below a directory that the same commit renames
+    (`R a z` followed by `M z/child`: the new path is looked up in the basis inventory)"""
+    for f, e in new_ents.items():
+        if e[2] and f in old_ents and old_ents[f][1] != e[1]:            # a directory renamed by its own name / parent
+            prefix = e[0] + "/"
+            for g, ge in new_ents.items():
+                if ge[0].startswith(prefix) and (g not in old_ents or old_ents[g][3] != ge[3] or old_ents[g][1] != ge[1]):
+                    return {"rich-import-change-below-directory-renamed-in-same-commit"}
+    return set()
 
 
 # ------------------------------------------------------------------ scenario
@@ -278,51 +288,62 @@ def run_scenario(args):
 
 
 def _run_scenario(args):
-    from fastimport import commands
-    from breezy.branch import Branch
     key, tier = args
     out = dict(viol=[], t2=[], count=collections.Counter(), cases=[])
-    cnt = out["count"]
     sc = build(tuple(key))
+    for plain in (True, False):
+        roundtrip(sc, plain, out)
+    shutil.rmtree(sc["dir"], ignore_errors=True)
+    return _plain(out)
+
+
+def roundtrip(sc, plain, out):
+    """export the scenario's branch in the plain or the rich (--no-plain) format, import the stream, run the
+    oracle and queue the model lines (file-command model: plain format only)"""
+    from fastimport import commands
+    from breezy.branch import Branch
+    cnt = out["count"]
+    fmt = "plain" if plain else "rich"
     branch, revs, by_id = sc["branch"], sc["revs"], sc["by_id"]
-    case0 = dict(scenario=sc["key"])
+    case0 = dict(scenario=sc["key"], fmt=fmt)
     src_repo = branch.repository
-    # ---- export (plain) ------------------------------------------------------------------------
     try:
-        stream, ex = do_export(branch, plain=True)
+        stream, ex = do_export(branch, plain=plain)
     except Exception as e:
-        out["viol"].append((case0, "fast-export raises %s: %s" % (type(e).__name__, str(e)[:120]), None))
-        shutil.rmtree(sc["dir"], ignore_errors=True)
-        return _plain(out)
+        out["viol"].append((case0, "fast-export (%s) raises %s: %s" % (fmt, type(e).__name__, str(e)[:120]), None))
+        return
     cmds = parse_stream(stream)
     commits = [c for c in cmds if isinstance(c, commands.CommitCommand)]
-    resets = [c for c in cmds if isinstance(c, commands.ResetCommand)]
     mark_of = {rid: int(m) for rid, m in ex.revid_to_mark.items() if m}
     rid_of = {m: rid for rid, m in mark_of.items()}
     order = [rid_of[int(c.mark)] for c in commits]
     if set(order) != sc["anc"] or len(order) != len(sc["anc"]):
-        out["viol"].append((case0, "the stream has commits for %s, the branch's ancestry is %s" % (
-            sorted(order), sorted(sc["anc"])), None))
-    # ---- per-commit model lines: command list -----------------------------------------------------
+        out["viol"].append((case0, "the %s stream has commits for %s, the branch's ancestry is %s" % (
+            fmt, sorted(order), sorted(sc["anc"])), None))
+    # ---- per-commit cases and (plain) model lines: command list ------------------------------------
     fidn = {}
     for r in revs:
         for f in r["tree"]:
             fidn.setdefault(f, len(fidn) + 1)
     fams_by_rid = {}
+    real_cmds = {}
     for c in commits:
         rid = rid_of[int(c.mark)]
         rv = by_id[rid]
         old = entries_of(by_id[rv["parents"][0]]["tree"]) if rv["parents"] else {}
         new = entries_of(rv["tree"])
-        fams_by_rid[rid] = classify_tree_diff(old, new)
+        fams_by_rid[rid] = classify_tree_diff(old, new, plain)
         real = file_cmds(c)
         paths = [e[0] for e in old.values()] + [e[0] for e in new.values()] + [x for fc in real for x in fc[1:3] if isinstance(x, str)]
         tk = Tokens(paths)
         nontrivial = any(fc[0] in "DR" for fc in real) or len(rv["parents"]) > 1
-        case = dict(scenario=sc["key"], rev=rid.decode(), parents=[p.decode() for p in rv["parents"]])
+        case = dict(scenario=sc["key"], fmt=fmt, rev=rid.decode(), parents=[p.decode() for p in rv["parents"]])
         out["cases"].append((dict(case, cmds=[list(fc[:3]) if fc[0] != "M" else [fc[0], fc[1], _tok(fc[2])] for fc in real]), nontrivial))
         for fc in real:
-            cnt["cmd:" + fc[0]] += 1
+            cnt["cmd:%s:%s" % (fmt, fc[0])] += 1
+        real_cmds[rid] = real
+        if not plain:
+            continue
         pre = ",".join(("D.%d" % tk.path(fc[1])) if fc[0] == "D" else "R.%d.%d" % (tk.path(fc[1]), tk.path(fc[2]))
                        for fc in real if fc[0] in "DR") or "-"
         mods = ",".join(sorted("M.%d.%d" % (tk.path(fc[1]), _tok(fc[2])) for fc in real if fc[0] == "M")) or "-"
@@ -335,27 +356,41 @@ def _run_scenario(args):
                 pre += ",LATE"
         out["t2"].append((case, "cmds plain %s %s" % (enc_ents(old, tk, fidn), enc_ents(new, tk, fidn)),
                           "%s | %s" % (pre, mods)))
-        sc.setdefault("real_cmds", {})[rid] = (real, tk)
-    # graph lines
+    # graph lines (both formats)
     idx = {rid: i + 1 for i, rid in enumerate(order)}
     gline = ";".join(".".join(str(idx.get(p, 0)) for p in by_id[rid]["parents"]) or "-" for rid in order) or "-"
     gimpl = ";".join("%s:%s" % ((c.from_ or b"~").decode().lstrip(":"),
                                 ".".join(m.decode().lstrip(":") for m in (c.merges or [])) or "-") for c in commits) or "-"
     out["t2"].append((dict(case0, graph=True), "graph %s" % gline, gimpl))
     # ---- import ------------------------------------------------------------------------------------
+    import contextlib
+    import io
+    log = io.StringIO()
     try:
-        dd, proc = do_import(stream)
+        with contextlib.redirect_stdout(log):        # the processor prints "ABORT: … processing commit b':N'"
+            dd, proc = do_import(stream)
     except Exception as e:
-        out["viol"].append((case0, "fast-import of the exported stream raises %s: %s" % (type(e).__name__, str(e)[:160]), None))
-        shutil.rmtree(sc["dir"], ignore_errors=True)
-        return _plain(out)
+        m = re.search(r"processing commit b':(\d+)'", log.getvalue())
+        rid = rid_of.get(int(m.group(1))) if m else None
+        fam = None
+        case = dict(case0)
+        if rid is not None:
+            rv = by_id[rid]
+            case = dict(case0, rev=rid.decode(), parents=[p.decode() for p in rv["parents"]], import_fails=True)
+            fams = set(fams_by_rid.get(rid, set()))
+            if not plain and rv["parents"]:
+                fams |= classify_rich_import(entries_of(by_id[rv["parents"][0]]["tree"]), entries_of(rv["tree"]))
+            fam = sorted(fams)[0] if fams else None
+        out["viol"].append((case, "fast-import of the exported %s stream raises %s at commit %s: %s" % (
+            fmt, type(e).__name__, rid.decode() if rid else "?", " ".join(str(e).split())[:160]), fam))
+        cnt["import-raises:%s:%s" % (fmt, fam)] += 1
+        return
     try:
         nb = Branch.open(os.path.join(dd, "trunk"))
     except Exception as e:
         out["viol"].append((case0, "the import created no trunk branch (%s): %s" % (type(e).__name__, sorted(os.listdir(dd))), None))
-        shutil.rmtree(sc["dir"], ignore_errors=True)
         shutil.rmtree(dd, ignore_errors=True)
-        return _plain(out)
+        return
     dst_repo = nb.repository
     out["cases"].append((dict(case0, history=[[r["rid"].decode(), [p.decode() for p in r["parents"]]] for r in revs],
                               tags={k: v.decode() for k, v in sc["tags"].items()}), True))
@@ -377,7 +412,7 @@ def _run_scenario(args):
         damaged = set()
         for rid in order:
             nr = new_of.get(rid)
-            case = dict(scenario=sc["key"], rev=rid.decode(), parents=[p.decode() for p in by_id[rid]["parents"]])
+            case = dict(scenario=sc["key"], fmt=fmt, rev=rid.decode(), parents=[p.decode() for p in by_id[rid]["parents"]])
             if nr is None or not dst_repo.has_revision(nr):
                 out["viol"].append((case, "exported revision %s has no imported counterpart" % rid.decode(), None))
                 continue
@@ -389,11 +424,15 @@ def _run_scenario(args):
             if r1.message != r2.message:
                 out["viol"].append((case, "message of %s changed: %r -> %r" % (rid.decode(), r1.message, r2.message), None))
             if r1.committer != r2.committer:
-                out["viol"].append((case, "committer of %s changed: %r -> %r" % (rid.decode(), r1.committer, r2.committer),
-                                    classify_committer(r1.committer)))
+                out["viol"].append((case, "committer of %s changed: %r -> %r" % (rid.decode(), r1.committer, r2.committer), None))
             if (r1.timestamp, r1.timezone) != (r2.timestamp, r2.timezone):
                 out["viol"].append((case, "timestamp/timezone of %s changed: %r -> %r" % (
                     rid.decode(), (r1.timestamp, r1.timezone), (r2.timestamp, r2.timezone)), None))
+            if not plain and dict(r1.properties) != dict(r2.properties):
+                out["viol"].append((case, "revision properties of %s changed in the rich format: %r -> %r" % (
+                    rid.decode(), dict(r1.properties), dict(r2.properties)), None))
+            # files and symlinks only: empty directories are outside the property (the plain format has no
+            # directories, the importer prunes empty ones), non-empty ones are implied by their content
             t1 = tree_dump(src_repo.revision_tree(rid))
             t2 = tree_dump(dst_repo.revision_tree(nr))
             dumps[rid] = t2
@@ -404,24 +443,25 @@ def _run_scenario(args):
                 if p0 in damaged:
                     # the first parent's imported tree is already wrong: what this commit's commands do on top
                     # of it is not judged (the violation is reported at the first damaged commit)
-                    cnt["tree-differs:inherited-from-first-parent"] += 1
+                    cnt["tree-differs:%s:inherited-from-first-parent" % fmt] += 1
                 else:
                     fams = fams_by_rid.get(rid, set())
                     fam = sorted(fams)[0] if fams else None
-                    out["viol"].append((case, "tree of %s differs after export+import at %r (e.g. %r -> %r); its first "
+                    out["viol"].append((case, "tree of %s differs after %s export+import at %r (e.g. %r -> %r); its first "
                                               "parent's tree was imported faithfully" % (
-                        rid.decode(), diff[:4], _short(t1.get(diff[0])), _short(t2.get(diff[0]))), fam))
-                    cnt["tree-differs:%s" % fam] += 1
-        # tags
-        want_tags = {k: new_of[v] for k, v in sc["tags"].items() if v in new_of and git_valid_tag(k)}
-        cnt["tags-not-valid-in-git"] += sum(1 for k in sc["tags"] if not git_valid_tag(k))
+                        rid.decode(), fmt, diff[:4], _short(t1.get(diff[0])), _short(t2.get(diff[0]))), fam))
+                    cnt["tree-differs:%s:%s" % (fmt, fam)] += 1
+        # tags (the plain format skips names that are not valid git refs, by design)
+        want_tags = {k: new_of[v] for k, v in sc["tags"].items() if v in new_of and (git_valid_tag(k) or not plain)}
+        if plain:
+            cnt["tags-not-valid-in-git"] += sum(1 for k in sc["tags"] if not git_valid_tag(k))
         got_tags = nb.tags.get_tag_dict()
         if want_tags != got_tags:
-            out["viol"].append((case0, "tags differ: exported %r (into the exported ancestry: %r), imported %r" % (
-                sorted(sc["tags"]), sorted(want_tags), sorted(got_tags)), None))
+            out["viol"].append((case0, "tags differ (%s): exported %r (into the exported ancestry: %r), imported %r" % (
+                fmt, sorted(sc["tags"]), sorted(want_tags), sorted(got_tags)), None))
         cnt["tags:%d" % len(sc["tags"])] += 1
-        # ---- importer model lines: apply the real commands to the imported first-parent tree ------
-        for rid in order:
+        # ---- importer model lines (plain): apply the real commands to the imported first-parent tree ----
+        for rid in order if plain else []:
             if rid not in dumps:
                 continue
             rv = by_id[rid]
@@ -429,12 +469,17 @@ def _run_scenario(args):
             if p0 is not None and p0 not in dumps:
                 continue
             base = dumps[p0] if p0 is not None else {}
-            real, _tk = sc["real_cmds"][rid]
+            real = real_cmds[rid]
             srcs = [fc[1] for fc in real if fc[0] == "R"]
             if any(fc[0] == "R" and fc[2] in srcs for fc in real):
                 # a rename whose target is another rename's source: the importer resolves paths against the
                 # basis inventory and its pending changes; not modelled (the exporter must not emit this)
                 cnt["apply-not-compared:rename-chain-in-stream"] += 1
+                continue
+            if any(fc[0] == "M" and fc[1] in srcs for fc in real):
+                # `R a b` + `M a`: the importer resolves `a` to the renamed entry's file id (reported by the
+                # oracle under import-new-entry-at-path-vacated-by-rename); path space has no file ids
+                cnt["apply-not-compared:modify-at-renamed-source"] += 1
                 continue
             targets = [fc[2] if fc[0] == "R" else fc[1] for fc in real if fc[0] in "RM"]
             if any(b.startswith(t + "/") or t.startswith(b + "/") for t in targets for b in base):
@@ -450,22 +495,6 @@ def _run_scenario(args):
             out["t2"].append((case, "apply %s %s" % (enc_flat({p: dump_value(v) for p, v in base.items()}, tk), enc),
                               enc_flat({p: dump_value(v) for p, v in dumps[rid].items()}, tk)))
     shutil.rmtree(dd, ignore_errors=True)
-    # ---- rich format probe ---------------------------------------------------------------------------
-    if key[1] == 0:
-        case = dict(scenario=sc["key"], rich=True)
-        out["cases"].append((case, True))
-        try:
-            stream2, _ex2 = do_export(branch, plain=False)
-            d2, _p2 = do_import(stream2)
-            cnt["rich-format:imported"] += 1
-            shutil.rmtree(d2, ignore_errors=True)
-        except Exception as e:
-            fam = "rich-export-revision-properties-rejected-by-importer" \
-                if isinstance(e, ValueError) and "invalid property name" in str(e) else None
-            out["viol"].append((case, "the rich (non-plain) stream of the exporter cannot be imported: %s: %s" % (
-                type(e).__name__, str(e)[:100]), fam))
-    shutil.rmtree(sc["dir"], ignore_errors=True)
-    return _plain(out)
 
 
 def _short(v):
